@@ -273,6 +273,15 @@ Theorem C07_when_resolution_idempotent : forall p w Q w',
 Proof. exact wrun_idempotent. Qed.
 Print Assumptions C07_when_resolution_idempotent.
 
+(* resolution in phases - lyd_new_implicit_module resolves the new top-level nodes first and then the new nested nodes -
+   equals one resolution of all queued nodes when no condition of the first phase reads a node queued in the second *)
+Theorem C07_when_resolution_phases : forall p w Q1 Q2 w1 w2,
+  acyclicb p = true -> NoDup (map fst (Q1 ++ Q2)) ->
+  (forall n wt d, In (n, wt) Q1 -> In d (pdeps p n) -> ~ In d (map fst Q2)) ->
+  wrun p w Q1 = Done w1 -> wrun p w1 Q2 = Done w2 -> wrun p w (Q1 ++ Q2) = Done w2.
+Proof. exact wrun_split. Qed.
+Print Assumptions C07_when_resolution_phases.
+
 (* the same three statements for ANY conditions that read only their declared dependencies, acyclic by some rank *)
 Theorem C07_when_resolution_generic : forall (val : Type) (cond : nat -> list (nat * val) -> bool) (deps : nat -> list nat)
     (rank : nat -> nat),
